@@ -368,11 +368,21 @@ def stub_tie(ctx, rd, CALC, nstub):
                 info.append(dict(kind="stub", stub=si, call=what, f=f, got=got, err=err, orc=orc, inr=inr,
                                  P=P, pd=pd, v=v, exact=(what == "v2p(pressures)")))
             # pass-through of V(T,P)
-            got = pb.volumes
-            if got is not vtp and not (isinstance(got, np.ndarray) and np.array_equal(got, vtp)):
-                ctx.failure("pressure_base.volumes", "pressure_base.volumes is not qha pressure_base.volumes on a stub",
-                            input=dict(stub=si), expected=vtp.tolist(), observed=np.asarray(got).tolist())
-            if not (pb.p_array is pd and pb.t_array is qpb.t_array):
+            got, err = observe(lambda: pb.volumes)
+            same = got is not None and got.shape == vtp.shape and np.array_equal(got, vtp)
+            ctx.obligation("stub %d: pressure_base.volumes is the QHA pressure-base V(T,P)" % si, "pass-through", same,
+                           err or "")
+            if not same:
+                ctx.failure("pressure_base.volumes", "pressure_base.volumes is not qha pressure_base.volumes on a stub"
+                            " (%s)" % (err or "different values"),
+                            input=dict(stub=si, qha_pressure_base_volumes=vtp.tolist()), expected=vtp.tolist(),
+                            observed=None if got is None else got.tolist())
+            try:
+                same = pb.p_array is pd and pb.t_array is qpb.t_array
+            except Exception as e:
+                same = False
+            ctx.obligation("stub %d: p_array/t_array are the QHA pressure-base arrays" % si, "pass-through", same)
+            if not same:
                 ctx.failure("pressure_base.p_array", "p_array/t_array are not the QHA pressure-base arrays",
                             input=dict(stub=si))
 
@@ -394,6 +404,12 @@ def stub_tie(ctx, rd, CALC, nstub):
                 ctx.case(["idx", si, t])
         files.append(sh)
     return files, info
+
+
+# The range check uses `<`, the bracket needs p < P_last: a grid whose top EQUALS min_T P[T][last] is accepted and
+# then every conversion raises "not enough values to unpack" (theorem C06_accepted_boundary_grid_is_undefined).
+# Recorded in the evidence as an observation; set to True to report it through the finding protocol.
+REPORT_BOUNDARY_AS_FINDING = False
 
 
 # ----------------------------------------------------------------------------------------------
@@ -436,13 +452,10 @@ def calc_quantities(c):
     return out
 
 
-def real_tie(ctx, rd, ncalc):
-    files, info, rinfo = [], [], []
+def make_plans(ctx, rd, ncalc):
+    """[(ci, dataset, [(label, qha settings)])]: grids whose top is placed relative to the reachable range"""
+    plans = []
     for ci in range(ncalc):
-        sh = Shard(rd / ("cases_calc_%02d.v" % ci))
-        g_q = sh.group("Calculator.pressure_base.<q> vs model v2p(volume_base.<q>)")
-        g_v = sh.group("pressure_base.volumes vs model pb_volumes")
-        g_r = sh.group("range check decision")
         ds = synth.make_dataset(ctx.rng, nv=ctx.rng.choice([5, 6, 7]), nq=ctx.rng.choice([1, 2, 3]),
                                 spectrum=ctx.rng.choice(["powerlaw", "curved"]))
         ntv = ctx.rng.choice([8, 10, 12, 15])
@@ -458,14 +471,32 @@ def real_tie(ctx, rd, ncalc):
         targets = [("deep-inside", 0.35 * lo_top), ("just-below-min", lo_top * (1 - 1e-4)),
                    ("between-min-and-max", 0.5 * (lo_top + hi_top)), ("just-above-max", hi_top * (1 + 1e-4)),
                    ("far-above", 1.7 * hi_top)]
+        if ci % 3 == 0 or ctx.tier != "quick":
+            targets.append(("exactly-min", lo_top))      # boundary: top of the grid == min_T P[T][last]
         if ctx.tier != "quick":
             targets += [("inside", ctx.rng.uniform(0.2, 0.95) * lo_top), ("above", ctx.rng.uniform(1.0, 1.3) * hi_top)]
+        cases = []
         for label, pmax in targets:
             pmin = ctx.rng.choice([0.0, 0.0, 2.5, max(bot * 0.5, -8.0)])
+            if label == "exactly-min":
+                pmin = 0.0
             dp = (pmax - pmin) / (ntv - 1)
-            st = dict(base, P_MIN=pmin, DELTA_P=dp, DELTA_P_SAMPLE=dp)
+            cases.append((label, dict(base, P_MIN=pmin, DELTA_P=dp, DELTA_P_SAMPLE=dp)))
+        plans.append((ci, ds, cases))
+    return plans
+
+
+def real_tie(ctx, rd, plans):
+    files, info, rinfo = [], [], []
+    for ci, ds, cases in plans:
+        sh = Shard(rd / ("cases_calc_%02d.v" % ci))
+        g_q = sh.group("Calculator.pressure_base.<q> vs model v2p(volume_base.<q>)")
+        g_v = sh.group("pressure_base.volumes vs model pb_volumes")
+        g_r = sh.group("range check decision")
+        d = rd / ("calc_%02d" % ci)
+        for label, st in cases:
             sp = synth.write_case(d, ds, synth.default_settings(qha=dict(settings=st)))
-            inp = dict(calc=ci, dataset="coq/run/C06/calc_%02d" % ci, settings=st, target=label)
+            inp = dict(calc=ci, settings=st, target=label)
             qh = hand_qha(sp)
             ptv, dgp = np.array(qh.p_tv_gpa), np.array(qh.desired_pressures_gpa)
             try:
@@ -480,7 +511,7 @@ def real_tie(ctx, rd, ncalc):
                         dict(inp, call="desired_pressure_status", observed=raised or "accepted")))
             ctx.case(["range", ci, label, st])
             ctx.count("range check: %s" % label)
-            rinfo.append(dict(inp=inp, ptv=ptv, dgp=dgp, accepted=accepted, raised=raised,
+            rinfo.append(dict(inp=inp, ds=ds, ptv=ptv, dgp=dgp, accepted=accepted, raised=raised,
                               is_value_error=is_value_error))
             if c is None:
                 continue
@@ -492,8 +523,19 @@ def real_tie(ctx, rd, ncalc):
                            same_field)
             inr = bool(P[:, 0].max() <= pd.min() and pd.max() < P[:, -1].min())
             if not inr:
-                # accepted although out of range (mutant, or p_max == min P_last): conversions may raise
-                ctx.count("accepted out-of-range grids")
+                # accepted although not inside [P_0, P_last) at every T (p_max == min P_last passes the `<` check,
+                # or a mutant): the conversions are expected to raise, exactly where the model returns None
+                ctx.count("accepted grids not inside [P_0, P_last) at every T")
+                _, err = observe(lambda: pb.v2p(vb.pressures))
+                ctx.extra.setdefault("accepted_but_not_convertible", []).append(dict(
+                    settings=st, target=label, grid_top_gpa=float(dgp.max()), min_T_P_last_gpa=float(ptv[:, -1].min()),
+                    grid_top_au=float(pd.max()), min_T_P_last_au=float(P[:, -1].min()),
+                    first_conversion=err or "returned"))
+                if REPORT_BOUNDARY_AS_FINDING and float(dgp.max()) == float(ptv[:, -1].min()) and err:
+                    ctx.failure("boundary:grid-top-equals-min-P-last",
+                                "grid whose top equals min_T P[T][last] = %r GPa passes the range check but every "
+                                "conversion raises %s" % (float(dgp.max()), err), input=dict(inp, dataset=ds),
+                                expected="converted or rejected at construction", observed=err)
             view = view_term(sh, P, v, pd)
             orc = Oracle(v, P, pd)
             for what, fn, f in calc_quantities(c):
@@ -501,18 +543,19 @@ def real_tie(ctx, rd, ncalc):
                 g_q.append(("agree (pressure_base %s %s) %s" % (view, sh.mat(f), sh.obs(got)),
                             dict(inp, call="pressure_base." + what, raised=err)))
                 ctx.case(["calc", ci, label, what])
-                info.append(dict(kind="calc", inp=inp, call=what, f=np.array(f), got=got, err=err, orc=orc, inr=inr,
+                info.append(dict(kind="calc", inp=inp, ds=ds, call=what, f=np.array(f), got=got, err=err, orc=orc, inr=inr,
                                  P=P, pd=pd, v=v, exact=what.startswith("v2p(volume_base.pressures")))
             got, err = observe(lambda: pb.volumes)
             g_v.append(("agree (pb_volumes %s) %s" % (view, sh.obs(got)), dict(inp, call="pressure_base.volumes",
                                                                                   raised=err)))
             ctx.case(["calc", ci, label, "volumes"])
-            info.append(dict(kind="calc", inp=inp, call="volumes", f=np.tile(v, (P.shape[0], 1)), got=got, err=err,
+            info.append(dict(kind="calc", inp=inp, ds=ds, call="volumes", f=np.tile(v, (P.shape[0], 1)), got=got, err=err,
                              orc=orc, inr=inr, P=P, pd=pd, v=v, exact=False, volumes=True))
             ctx.count("calculators converted (nt=%d rows)" % P.shape[0])
             if ci == 0 and label == "deep-inside":
+                c11, _ = observe(lambda: pb.c11)
                 ctx.sample(dict(settings=st, p_array_au=pd.tolist()[:4], P_row0_au=P[0].tolist()[:4],
-                                c11_tp_row0=np.asarray(pb.c11)[0].tolist()[:4]))
+                                c11_tp_row0=None if c11 is None else c11[0].tolist()[:4]))
         files.append(sh)
     return files, info, rinfo
 
@@ -522,14 +565,14 @@ def real_tie(ctx, rd, ncalc):
 # ----------------------------------------------------------------------------------------------
 
 def search(ctx, info, rinfo):
-    stats = dict(max_ratio=0.0, max_rel_PV=0.0, max_rel_tol=0.0, n_between=0, n_exact=0, n_mono=0, n_skipped_nonfinite=0)
+    stats = dict(max_ratio=0.0, max_rel_PV=0.0, max_rel_tol=0.0, n_between=0, n_exact=0, n_mono=0, n_skipped_nonfinite=0, rel_tols=[])
     for r in info:
         site = "pressure_base." + r["call"].split("[")[0].split("(")[0]
         if r["kind"] == "stub":
             inp = dict(stub=r["stub"], call=r["call"], P=r["P"].tolist(), p_array=r["pd"].tolist(),
                        f=np.asarray(r["f"]).tolist())
         else:
-            inp = dict(r["inp"], call=r["call"])
+            inp = dict(r["inp"], call=r["call"], dataset=r["ds"])
         if not r["inr"]:
             continue        # outside the quantifier of the property (model/impl agreement is the shard's job)
         if r["got"] is None:
@@ -567,6 +610,7 @@ def search(ctx, info, rinfo):
                     stats["max_ratio"] = max(stats["max_ratio"], rel)
                     fin = [abs(float(x)) for x in r["f"][t] if math.isfinite(float(x))]
                     stats["max_rel_tol"] = max(stats["max_rel_tol"], tols[t][j] / (max(fin) or 1.0))
+                    stats["rel_tols"].append(tols[t][j] / (max(fin) or 1.0))
         if bad:
             t, j, want, g, tol = bad[0]
             ctx.failure(site, "%s at (t=%d, p=%r): %r, but the volume-base quantity at the volume where P(T,V)=p "
@@ -605,6 +649,7 @@ def search(ctx, info, rinfo):
     # range check, from the statement: reject iff the grid extends above the pressure reachable at every
     # temperature, i.e. some requested pressure exceeds P[t][last] for some t
     for r in rinfo:
+        r["inp"] = dict(r["inp"], dataset=r["ds"])
         over = any(p > row[-1] for row in r["ptv"].tolist() for p in r["dgp"].tolist())
         if over and r["accepted"]:
             ctx.failure("range-check:accepted-overshoot",
@@ -668,7 +713,17 @@ def run(ctx):
     shards, info = stub_tie(ctx, rd, CALC, 18 if quick else 120)
     tm["stub_tie_s"] = round(time.time() - t0, 2)
     t0 = time.time()
-    cshards, cinfo, rinfo = real_tie(ctx, rd, 6 if quick else 40)
+    plans = make_plans(ctx, rd, 6 if quick else 40)
+    rp = getattr(ctx, "replay_in", None)
+    fi = ((rp or {}).get("failing_input") or {}).get("input")
+    if isinstance(fi, dict) and "dataset" in fi and "settings" in fi:
+        # ./check C06 --replay file: re-run the recorded data set and settings first
+        ds = fi["dataset"]
+        ds["qha"]["weights"] = [(tuple(c), w) for c, w in ds["qha"]["weights"]]
+        for v in ds["qha"]["volumes"]:
+            v["q_points"] = [(tuple(c), m) for c, m in v["q_points"]]
+        plans.insert(0, (99, ds, [("replay", fi["settings"])]))
+    cshards, cinfo, rinfo = real_tie(ctx, rd, plans)
     tm["calculator_tie_s"] = round(time.time() - t0, 2)
     files = [sh.emit() for sh in shards + cshards]
 
@@ -695,6 +750,10 @@ def run(ctx):
     ctx.extra["measured"] = dict(
         between_node_worst_deviation_over_tolerance=stats["max_ratio"], tolerance_factor=C_TOL,
         between_node_largest_relative_tolerance=stats["max_rel_tol"],
+        between_node_median_relative_tolerance=(sorted(stats["rel_tols"])[len(stats["rel_tols"]) // 2]
+                                                if stats["rel_tols"] else None),
+        between_node_grid_points=len(stats["rel_tols"]),
+        between_node_grid_points_with_relative_tolerance_below_1e_3=sum(1 for x in stats["rel_tols"] if x < 1e-3),
         grid_points_skipped_nonfinite_stencil=stats["n_skipped_nonfinite"],
         P_of_V_of_P_worst_relative_deviation=stats["max_rel_PV"],
         matrices_compared_between_nodes=stats["n_between"], pressure_field_identities=stats["n_exact"],
